@@ -377,6 +377,19 @@ func (r *reflCtx) valueHasKind(fn *ssa.Function, at ssa.Instruction, v ssa.Value
 				return true, how
 			}
 		}
+	case *ssa.Extract:
+		// the value half of a comma-ok lookup in a scope's value stores, used under its ok edge: what was stored
+		// there came out of a user function through the invoker and is a valid reflect.Value (of any kind)
+		if lk, ok := x.Tuple.(*ssa.Call); ok && x.Index == 0 && lk.Common().IsInvoke() && an.IsDigNamed(lk.Common().Value.Type(), "containerStore") &&
+			strings.HasPrefix(lk.Common().Method.Name(), "getDecorated") && len(kinds) >= 10 {
+			okE := an.BoolEdges(fn, func(v ssa.Value) bool {
+				ex, isEx := v.(*ssa.Extract)
+				return isEx && ex.Tuple == ssa.Value(lk) && ex.Index == 1
+			}, true)
+			if dominated(fn, at, okE) {
+				return true, "found in a scope's store (ok edge): a valid value"
+			}
+		}
 	case *ssa.Call:
 		name := an.CalleeName(x)
 		switch name {
@@ -427,6 +440,7 @@ var reflAssumed = []struct{ fn, op, recv, why string }{
 	{"(dig.resultObject).Extract", "Field", "p:v", "assumed: the value handed to a result's Extract has the static type the result node was built from (ctype.Out(i)), a struct for resultObject"},
 	{"(dig.resultGrouped).Extract", "Len", "p:v", "assumed: same; Flatten is only set for slice-typed results (checked: E-REFL/inv flatten)"},
 	{"(dig.resultGrouped).Extract", "Index", "p:v", "assumed: same"},
+	{"(dig.resultGrouped).Extract", "Elem", "p:rt.Type", "assumed: the decorated branch is reached only for the results of a decorator, and Decorate admits a grouped result only if its Type is a slice (findResultKeys, checked by E-REFL there and by G-typed-store for flatten)"},
 	{"(dig.paramObject).Build", "Field", "", "assumed: dest is reflect.New(po.Type).Elem() with po.Type a struct (field invariant)"},
 	{"(*dig.Scope).Invoke", "Type", "", "assumed: values returned by the invoker are valid reflect.Values"},
 	{"(dig.provideAsOption).String", "", "", "out of scope: String() of an option value is never called by dig on unvalidated input"},
